@@ -1,10 +1,15 @@
 #!/bin/bash
-# Applies every seeded change in turn, runs the quick check of the property it breaks, reverts.  One line per seed.
-cd /verif
-: > /tmp/seed_results.txt
-for d in seeded/*/; do
+# Applies every seeded change in turn, runs the quick check of the property it breaks, reverts.  One line per seed;
+# the result is written to seeded/last_sweep.txt of this copy of the framework.
+V=$(cd "$(dirname "$0")/.." && pwd)
+R=${VERIF_REPO:-/repo}
+cd "$V"
+OUT=${TMPDIR:-/tmp}/seed_results.$(basename "$V").$$
+: > "$OUT"
+for d in seeded/C*/; do
   s=$(basename $d); p=${s:0:3}
-  tools/run_seed.sh $s $p >> /tmp/seed_results.txt 2>&1
+  [ -n "$1" ] && [[ ! "$s" =~ $1 ]] && continue
+  tools/run_seed.sh $s $p >> "$OUT" 2>&1
 done
-git -C /repo status --short >> /tmp/seed_results.txt
-echo ALLDONE >> /tmp/seed_results.txt; grep "^C" /tmp/seed_results.txt > /verif/seeded/last_sweep.txt
+git -C "$R" status --short >> "$OUT"
+echo ALLDONE >> "$OUT"; grep "^C" "$OUT" > seeded/last_sweep.txt; cat "$OUT"; rm -f "$OUT"
